@@ -36,6 +36,8 @@ struct View {
     timeout_us: Option<i64>,
     /// close() was called in SYN-RECEIVED, i.e. while the own SYN was still unacknowledged
     closed_before_syn_acked: bool,
+    /// some segment from the peer carried FIN
+    peer_fin_seen: bool,
 }
 
 impl View {
@@ -85,10 +87,39 @@ impl View {
     fn rst_in_window(&self, seg: &Tcp) -> Option<bool> {
         let a = self.last_ack?;
         let d = seq_diff(seg.seq, a);
-        let end = d + seg.payload.len() as i64;
-        Some((d >= 0 && d <= self.last_win as i64) || (end > 0 && end <= self.last_win as i64))
+        let len = seg.payload.len() as i64;
+        let end = d + len;
+        let w = self.last_win as i64;
+        // RFC 9293 3.10.7.4 acceptability test; the window starts no earlier than the last
+        // acknowledgment number sent and ends exactly last_ack + last_win (right edge excluded)
+        // (a window filled completely since the last acknowledgment is a zero window at its
+        // old right edge: a zero-length segment exactly there is acceptable)
+        let filled = d == w && self.rcv_nxt_may_reach(a.wrapping_add(self.last_win));
+        Some(match (len == 0, w == 0) {
+            (true, true) => d == 0,
+            (true, false) => (d >= 0 && d < w) || filled,
+            (false, true) => false,
+            (false, false) => (d >= 0 && d < w) || (end > 0 && end <= w),
+        })
+    }
+    /// Upper bound on RCV.NXT (contiguous prefix of everything that ever arrived, plus a
+    /// FIN) is at or beyond `edge`.
+    fn rcv_nxt_may_reach(&self, edge: u32) -> bool {
+        let irs = match self.irs {
+            Some(i) => i,
+            None => return true,
+        };
+        let mut n = 0u32;
+        while self.covered.contains(&n) {
+            n += 1;
+        }
+        let upper = irs.wrapping_add(1).wrapping_add(n).wrapping_add(self.peer_fin_seen as u32);
+        !seq_lt(upper, edge)
     }
     fn note_arrival(&mut self, seg: &Tcp) {
+        if seg.has(FIN) {
+            self.peer_fin_seen = true;
+        }
         if let Some(irs) = self.irs {
             let off = seq_diff(seg.seq, irs.wrapping_add(1));
             for i in 0..seg.payload.len() as i64 {
